@@ -5,64 +5,6 @@ From SV Require Import Base Json Canon Sync SyncObs CorrC13.
 Section O14.
   Variable frepr : fl -> str.
 
-  Fixpoint path_str (p : path) : str :=        (* the path relative to the job, as the strategy receives it *)
-    match p with
-    | [] => []
-    | [k] => k
-    | k :: p' => k ++ [SLASH] ++ path_str p'
-    end.
-
-  Definition file_at (p : path) (d : dir) : option (content * Z) :=
-    match lookup_path p (Dir d) with Some (File c m) => Some (c, m) | _ => None end.
-
-  (* [deep] says how "different content" is decided: the comparison the call was asked to use *)
-  Definition conflicts_gen (excl : path -> bool) (deep : bool) (i : sinput) (sd dd : dir)
-    : list (path * (content * Z) * (content * Z)) :=
-    flat_map (fun e =>
-                match file_at (fst e) sd, file_at (fst e) dd with
-                | Some (c1, m1), Some (c2, m2) =>
-                    if (o_recursive (i_opts i) || Nat.eqb (length (fst e)) 1)
-                       && negb (excl (fst e))
-                       && negb (file_same frepr deep c1 m1 c2 m2)
-                    then [(fst e, (c1, m1), (c2, m2))] else []
-                | _, _ => []
-                end) (flat sd).
-
-  (* obligations are stated for files no component of whose path matches an exclude pattern ... *)
-  Definition conflicts (deep : bool) (i : sinput) := conflicts_gen (path_excluded i) deep i.
-  (* ... while a FileSyncConflict is justified by any differing file whose own name is not excluded *)
-  Definition name_excluded (i : sinput) (p : path) : bool :=
-    o_exclude (i_opts i) (last_name p) || path_eqb p [FN_SP] || (negb (doc_is_file i) && path_eqb p [FN_DOC]).
-  Definition conflicts_by_name (deep : bool) (i : sinput) := conflicts_gen (name_excluded i) deep i.
-
-  (* a reachable name that is a file on one side and a directory on the other, its own name not excluded *)
-  Definition kind_clash (i : sinput) (sd dd : dir) : bool :=
-    existsb (fun e =>
-               (o_recursive (i_opts i) || Nat.eqb (length (fst e)) 1)
-               && negb (name_excluded i (fst e))
-               && match lookup_path (fst e) (Dir dd), snd e with
-                  | Some (Dir _), Some _ => true
-                  | Some (File _ _), None => true
-                  | _, _ => false
-                  end) (flat sd).
-  Definition any_clash (i : sinput) : bool :=
-    existsb (fun pr => match snd pr with Some dd => kind_clash i (snd (fst pr)) dd | None => false end) (pairs i).
-
-  Definition is_content (c : content) (x : option (content * Z)) : bool :=
-    match x with Some (c', _) => content_eqb frepr c c' | None => false end.
-
-  (* one conflicting file: overwritten iff the strategy says so; untouched without a strategy *)
-  Definition conflict_ok (i : sinput) (o : sobs) (dd' : dir) (x : path * (content * Z) * (content * Z)) : bool :=
-    let '(p, (c1, m1), (c2, m2)) := x in
-    let after := file_at p dd' in
-    match o_strategy (i_opts i) with
-    | None => negb (is_none (ob_exn o)) && is_content c2 after
-    | Some s =>
-        let v := verdict s (path_str p) m1 m2 in
-        if is_none (ob_exn o) then is_content (if v then c1 else c2) after
-        else is_content c2 after || (v && is_content c1 after)
-    end.
-
   (* some document pair differs, or the schema gate fires: another exception may legitimately come first *)
   Definition doc_differs (fn : str) (sd dd : dir) : bool :=
     negb (py_eq (JObj (read_doc fn sd)) (JObj (read_doc fn dd))).
@@ -79,11 +21,11 @@ Section O14.
   Definition files_ok_with (deep : bool) (i : sinput) (o : sobs) : bool :=
     let all :=
          flat_map (fun pr => match snd pr, job_dir (fst (fst pr)) (p_ws (ob_dst o)) with
-                             | Some dd, Some dd' => map (fun cf => (dd', cf)) (conflicts deep i (snd (fst pr)) dd)
-                             | Some dd, None => map (fun cf => ([], cf)) (conflicts deep i (snd (fst pr)) dd)
+                             | Some dd, Some dd' => map (fun cf => (dd', cf)) (conflicts frepr deep i (snd (fst pr)) dd)
+                             | Some dd, None => map (fun cf => ([], cf)) (conflicts frepr deep i (snd (fst pr)) dd)
                              | None, _ => []
                              end) (pairs i) in
-       forallb (fun x => conflict_ok i o (fst x) (snd x)) all
+       forallb (fun x => conflict_ok frepr i o (fst x) (snd x)) all
        && match all, o_strategy (i_opts i) with
           | _ :: _, None => other_trouble i || exn_opt_eqb (ob_exn o) (Some EFileSyncConflict)
           | _, _ => true
@@ -93,7 +35,7 @@ Section O14.
      whatever the strategy answers, files that exist only in the source are copied (C13's superset clause) *)
   Definition any_conflict (deep : bool) (i : sinput) : bool :=
     existsb (fun pr => match snd pr with
-                       | Some dd => nonempty (conflicts_by_name deep i (snd (fst pr)) dd)
+                       | Some dd => nonempty (conflicts_by_name frepr deep i (snd (fst pr)) dd)
                        | None => false
                        end) (pairs i).
 
